@@ -58,6 +58,7 @@ PROP_FLAVOURS = {
     "C05": {"quick": ["asm", "intr", "pure"], "thorough": ["asm", "intr", "pure", "plain"]},
     "C06": {"quick": ["asm"], "thorough": ["asm", "plain"]},
     "C07": {"quick": ["asm"], "thorough": ["asm", "intr", "pure", "plain"]},
+    "C08": {"quick": ["asm"], "thorough": ["asm", "intr", "plain"]},
     "C09": {"quick": ["asm"], "thorough": ["asm", "plain"]},
     "C10": {"quick": ["asm"], "thorough": ["asm", "plain"]},
     "C11": {"quick": ["asm"], "thorough": ["asm", "plain"]},
